@@ -19,10 +19,12 @@ def run(ctx):
               label="negative self-test: choosing the step by the arithmetic mean breaks the count bound")
     recs = tc.gather(ctx, "ticks")
     tc.check(ctx, "ticks", recs, "C16_")
-    # the process's local zone is no input of the property: a slice of the same records is taken in a zone with DST
-    zrecs = tc.gather(ctx, "ticks", tz="EST5EDT,M3.2.0,M11.1.0", scale=0.2)
-    tc.check(ctx, "ticks", zrecs, "C16_", zone="US-Eastern-DST")
-    ctx.evaluations += len(zrecs)
+    # the process's local zone is no input of the property: slices of the same records are taken in a zone with DST and in
+    # one whose offset is not a whole number of hours
+    for zname, tz, sc in (("US-Eastern-DST", "EST5EDT,M3.2.0,M11.1.0", 0.2), ("India+5:30", "IST-5:30", 0.1)):
+        zrecs = tc.gather(ctx, "ticks", tz=tz, scale=sc)
+        tc.check(ctx, "ticks", zrecs, "C16_", zone=zname)
+        ctx.evaluations += len(zrecs)
     # conformance of the operational model with the observed tick lists: drift is reported, never a verdict
     sub = [r for r in recs if not r["err"]][::(3 if quick else 1)]
     drift, st = core.validate_records("TimeDrift", "TimeDrift.cfg", sub, per_shard=800, heap="3g")
